@@ -22,13 +22,19 @@ def run(rep):
                        "x every failing stage or none x 2 error objects x 2 argument vectors; fmap and join error forms and join.fmap "
                        "with 0..3 results of every type x every failing stage x error objects; traverse to every result type over "
                        "nil and lists of length 0..4 with the failure at every index; toerror over 8 naming schemes x 1..3 parameters "
-                       "x 0..2 results x ok/not ok x 2 error objects; one package per class. distinct_nontrivial = distinct "
+                       "x 0..2 results x ok/not ok x 2 error objects; one package per class. Helpers that return a function (compose, "
+                       "toerror, fmap's error form with >= 2 results, and `fn, e := deriveFmap(f, g); deriveJoin(fn, e)`) are observed "
+                       "at three moments: the call log when the helper returns, and two invocations of the returned function with a "
+                       "fresh log each (compose/toerror: nothing before, the whole chain once per invocation; fmap: g then f exactly "
+                       "once before it returns, nothing per invocation, same results). distinct_nontrivial = distinct "
                        "(helper, chain, failure choice, arguments) ops executed on a helper that compiled")
     rep.assumptions += [
         "values are abstract payloads (0 = the zero value of the type); error identity is observed by comparing error objects",
         "Join (and join of fmap): when the LAST stage f itself fails, its own non-error results are passed on unchanged "
         "(`return f()`); the zero-value clause is checked for failures of every earlier stage. Under the stricter reading "
         "(zero values also beside f's own error) deriveJoin would differ for an f that returns non-zero values with its error",
+        "'exactly once' for compose and toerror means once per invocation of the returned function (building it evaluates nothing); "
+        "for fmap's error form with a multi-result f it means once, before deriveFmap returns, however often the returned function is invoked",
         "successful Traverse of an empty or nil list: only length and elements of the result are observed, not nil-ness",
         "toerror: no parameter is called success or out<i> (would collide with the helper's locals; outside the corpus)",
     ]
